@@ -10,7 +10,7 @@ import logging
 from dataclasses import dataclass
 from enum import Enum
 from functools import partial
-from math import ceil
+from math import ceil, prod
 from typing import Callable, Optional, Tuple, Union, cast
 
 import numpy as np
@@ -81,7 +81,7 @@ class GCPSampler:
             else:
                 function_sampler = Samplers.UNIFORM
 
-        tensor_size = int(np.prod(data.shape))
+        tensor_size = prod(int(n) for n in data.shape)
         num_nonzeros = data.nnz
         num_zeros = tensor_size - num_nonzeros
 
@@ -147,7 +147,7 @@ class GCPSampler:
             )
         elif function_sampler == Samplers.UNIFORM:
             if function_samples is None:
-                tensor_size = int(np.prod(data.shape))
+                tensor_size = prod(int(n) for n in data.shape)
                 function_samples = min(max(ceil(tensor_size / 10), 10**6), tensor_size)
             if not isinstance(function_samples, int):
                 raise ValueError(
@@ -208,7 +208,7 @@ class GCPSampler:
                     over_sample_rate=over_sample_rate,
                 )
         elif gradient_sampler == Samplers.UNIFORM:
-            tensor_size = int(np.prod(data.shape))
+            tensor_size = prod(int(n) for n in data.shape)
             if gradient_samples is None:
                 gradient_samples = int(
                     min(max(1000, ceil(10 * tensor_size / max_iters)), tensor_size)
@@ -304,7 +304,8 @@ def zeros(
     with_replacement:
         Whether or not to sample with replacement.
     """
-    data_size = np.prod(data.shape)
+    # Python integers: neither the number of entries nor samples * data_size may wrap
+    data_size = prod(int(n) for n in data.shape)
     nnz = len(nz_idx)
     num_zeros = data_size - nnz
 
@@ -398,7 +399,9 @@ def uniform(data: ttb.tensor, samples: int) -> sample_type:
     )
     # One value per sample as a flat array (a sparse tensor hands back a column)
     vals = np.asarray(data[subs], dtype=float).reshape((samples,))
-    wgts = (np.prod(data.shape) / samples) * np.ones((samples,))
+    wgts = np.ones((samples,))
+    if samples > 0:
+        wgts *= prod(int(n) for n in data.shape) / samples
     return subs, vals, wgts
 
 
@@ -428,7 +431,9 @@ def semistrat(data: ttb.sptensor, num_nonzeros: int, num_zeros: int) -> sample_t
         np.random.uniform(0, 1, (num_zeros, data.ndims)) * (np.array(data.shape) - 1),
     ).astype(int)
     zero_vals = np.zeros((num_zeros,))
-    zero_weights = (np.prod(data.shape) / num_zeros) * np.ones((num_zeros,))
+    zero_weights = np.ones((num_zeros,))
+    if num_zeros > 0:
+        zero_weights *= prod(int(n) for n in data.shape) / num_zeros
 
     all_subs = np.vstack((nonzero_subs, zero_subs))
     all_vals = np.concatenate((nonzero_vals, zero_vals))
@@ -472,7 +477,7 @@ def stratified(
 
     zero_subs = zeros(data, nz_idx, num_zeros, over_sample_rate, with_replacement=True)
     zero_vals = np.zeros((num_zeros,))
-    data_nonzero_count = np.prod(data.shape) - data.nnz
+    data_nonzero_count = prod(int(n) for n in data.shape) - data.nnz
     zero_weights = np.ones((num_zeros,))
     if num_zeros > 0:
         zero_weights *= data_nonzero_count / num_zeros
